@@ -35,7 +35,7 @@ RULE = (
     "of the clean output, and a clean call on the same closure follows. (3) Schedules: 2-3 threads with drawn "
     "create/use programs start from cold caches under a deterministic line-granularity scheduler (sys.settrace in "
     "src/kio, token passing); the interleaving is a drawn list of <=3 preemptions (global step, target thread); "
-    "additionally ONE preemption is swept over EVERY step of fixed two/three-thread programs (warm and cold caches, two different values of one class) exhaustively, and EVERY PAIR of preemptions (park thread 0 at k1, park thread 1 at k2, resume 0, then 1) is swept over a warm two-thread program whose values hold multi-item arrays. EVERY PAIR of preemption points is also swept over the COLD construction of two readers by two threads (RequestHeader v2 and a class with compact strings), the closures being used afterwards. One preemption is also swept over the COLD construction-and-use of two values of the SAME class by two threads, for the tag-bearing messages and the classes with nullable struct fields. Additionally one preemption is swept over every step of thread 0 working on class X while thread 1 works on a DIFFERENT class Y (warm encode and decode), for consecutive pairs of a greedy cover of small classes that together contain every field kind (plain, array, tagged), a nullable struct and nested struct arrays. (4) Orders: in 4 (quick) / 14 (thorough) fresh processes the readers and writers of ALL 1629 classes are created and used in a different order (forward, reverse, seeded shuffles); per class up to 12 fixed calls (decode of a populated, a zero, a conforming explicit-default/explicit-null and up to three null-in-non-nullable encodings; encode of the corresponding instances) must have the same outcome (value or exception type) in every order; a difference is bisected to the earlier class that causes it. (5) Repetition: for 40 classes (the 13 tag-bearing messages first; each also goes big/small/big/small through one cached closure, the big value having 9000-byte strings and 400-item tagged arrays) one cached writer and one cached reader are called 10000 (quick) / 300000 (thorough) times each on a populated value; every result must equal the reference encoding / the value; and for 6 classes 70000 (quick) / 600000 (thorough) DISTINCT values (every string, bytes, uuid and wide integer unique) go through one reader/writer pair, each must re-encode to its reference bytes, and the first 64 are decoded again afterwards. Non-trivial = history with a failed call "
+    "additionally ONE preemption is swept over EVERY step of fixed two/three-thread programs (warm and cold caches, two different values of one class) exhaustively, and EVERY PAIR of preemptions (park thread 0 at k1, park thread 1 at k2, resume 0, then 1) is swept over a warm two-thread program whose values hold multi-item arrays. EVERY PAIR of preemption points is also swept over the COLD construction of two readers by two threads (RequestHeader v2 and a class with compact strings), the closures being used afterwards. One preemption is also swept over the COLD construction-and-use of two values of the SAME class by two threads, for the tag-bearing messages and the classes with nullable struct fields. Additionally one preemption is swept over every step of thread 0 working on class X while thread 1 works on a DIFFERENT class Y (warm encode and decode), for consecutive pairs of a greedy cover of small classes that together contain every field kind (plain, array, tagged), a nullable struct and nested struct arrays. (4) Orders: in 16 (quick) / 48 (thorough) fresh processes the readers and writers of ALL 1629 classes are created and used in a different order (forward, reverse, all nested structs first, all top-level classes first, seeded shuffles); per class up to 12 fixed calls (decode of a populated, a zero, a conforming explicit-default/explicit-null and up to three null-in-non-nullable encodings; encode of the corresponding instances) must have the same outcome (value or exception type) in every order; a difference is bisected to the earlier class that causes it. (5) Repetition: for 40 classes (the 13 tag-bearing messages first; each also goes big/small/big/small through one cached closure, the big value having 9000-byte strings and 400-item tagged arrays) one cached writer and one cached reader are called 10000 (quick) / 300000 (thorough) times each on a populated value; every result must equal the reference encoding / the value; and for 6 classes 70000 (quick) / 600000 (thorough) DISTINCT values (every string, bytes, uuid and wide integer unique) go through one reader/writer pair, each must re-encode to its reference bytes, and the first 64 are decoded again afterwards. Volume: while one thread is parked in the middle of a decode, another decodes and encodes a 64 MiB message until more than 2^31 (thorough: 2^32 + 2^30) bytes went each way; every round is compared in full. Non-trivial = history with a failed call "
     "followed by a successful call on the same closure / fault k strictly inside the call / schedule with >=1 "
     "preemption landing inside entity_reader/entity_writer construction or read_entity/write_entity; distinct by hash."
 )
@@ -1168,9 +1168,9 @@ def order_pair_differs(first: str | None, then: str, label: str) -> tuple[str, s
 
 
 def order_stage(ctx: Ctx, total: Report) -> None:
-    specs = ["forward", "reverse", f"shuffle:{ctx.subseed('order', 0)}", f"shuffle:{ctx.subseed('order', 1)}"]
+    specs = ["forward", "reverse", "nested-first", "top-first"] + [f"shuffle:{ctx.subseed('order', i)}" for i in range(12)]
     if not ctx.quick:
-        specs += [f"shuffle:{ctx.subseed('order', i)}" for i in range(2, 12)]
+        specs += [f"shuffle:{ctx.subseed('order', i)}" for i in range(12, 44)]
     results = dict(pool_map(_order_worker, specs))
     base_spec = specs[0]
     base = results[base_spec]
@@ -1349,6 +1349,93 @@ def flood(path: str, n: int, keep: int = 64) -> list[tuple[str, str]]:
         clear_caches()
 
 
+VOLUME_CLASS_SMALL = "kio.schema.metadata.v12.request:MetadataRequest"
+
+
+def volume_under_overlap(total_bytes: int) -> tuple[list[tuple[str, str]], int]:
+    """More than `total_bytes` are decoded and encoded by one thread WHILE another thread is parked in the middle of a
+    decode (a connection waiting for its peer): byte budgets, counters and pools that only reset when nothing is in
+    flight must not change any result.  The big message is a 64 MiB bytes field; every round is compared in full.
+    -> (failures, rounds)"""
+    from ..c19_orders import populated_tree
+    from ..refcodec import to_entity, zero_tree
+    from ..treeprop import _blob_paths, sweep_tree
+
+    big_cd = None
+    for cls in D.all_classes():
+        cd = D.describe(cls)
+        hit = next(((p, f) for p, f in _blob_paths(cd) if len(p) == 1 and f.tag is None and not f.nullable), None)
+        if hit and cd.flexible:
+            big_cd, big_path = cd, hit[0]
+            break
+    if big_cd is None:
+        raise HarnessError("volume stage: no flexible class with a top-level bytes field")
+    blob = (b"volume-under-overlap-" * (1 << 22))[: 1 << 26]
+    tree = sweep_tree(big_cd, big_path, blob)
+    data = ref_encode(big_cd, tree)
+    value = to_entity(big_cd, tree)
+    small_cd = D.describe(D.resolve(VOLUME_CLASS_SMALL))
+    small_tree = populated_tree(small_cd, 2, 0)
+    small_data = ref_encode(small_cd, small_tree)
+    small_value = to_entity(small_cd, small_tree)
+    rounds = total_bytes // len(blob) + 3
+    clear_caches()
+    for cd in (big_cd, small_cd):
+        K.entity_reader(cd.cls)
+        K.entity_writer(cd.cls)
+
+    def parked():
+        return [K.decode(small_cd.cls, small_data), K.encode(small_cd.cls, small_value)]
+
+    def busy():
+        out = []
+        for i in range(rounds):
+            try:
+                got, used = K.decode(big_cd.cls, data)
+                if used != len(data) or got != value:
+                    out.append(("volume:decode-differs", f"round {i} (after {i * len(blob) >> 20} MiB): {big_cd.path} decoded differently while another decode was in flight"))
+                    break
+                if K.encode(big_cd.cls, value) != data:
+                    out.append(("volume:encode-differs", f"round {i} (after {i * len(blob) >> 20} MiB): {big_cd.path} encoded differently while another call was in flight"))
+                    break
+            except Exception as e:
+                out.append((f"volume:raised:{K.exc_signature(e)}", f"round {i} (after {i * len(blob) >> 20} MiB decoded and encoded while another decode was in flight): "
+                            f"{big_cd.path}: {e!r:.300}"))
+                break
+        return out
+
+    dry = Scheduler([parked], [], kio_prefix()).run()
+    fails = []
+    for frac in (3, 2):  # park thread 0 a third and a half of the way through its decode
+        r = Scheduler([parked, busy], [(max(dry.steps // 2 // frac, 1), 1)], kio_prefix(), timeout=900.0).run()
+        for tid, e in r.errors:
+            fails.append((f"volume:thread-raised:{K.exc_signature(e)}", f"thread {tid} raised {e!r:.300}"))
+        if r.results[1]:
+            fails.extend(r.results[1])
+        res0 = r.results[0]
+        if res0 is not None and (not py_equal(res0[0][0], small_value) or res0[0][1] != len(small_data) or res0[1] != small_data):
+            fails.append(("volume:parked-thread-differs", f"{small_cd.path}: the parked thread's own results differ after the other thread moved {rounds * len(blob) >> 20} MiB"))
+        if fails:
+            break
+    return fails, rounds
+
+
+def _volume_worker(task):
+    rep = Report(prop=ID, level="exploration", rule=RULE)
+    fails, rounds = volume_under_overlap(task)
+    rep.evaluations += 4 * rounds
+    rep.nontrivial.add(case_hash(("volume", task)))
+    rep.nontrivial.add(case_hash(("volume-rounds", rounds)))
+    rep.extra["counters"] = {"volume_rounds": 2 * rounds}
+    for sig, msg in fails:
+        rep.add_failure(Failure(sig, msg, {"kind": "volume", "bytes": task}, 1))
+    return rep
+
+
+def _flood_or_volume(task):
+    return _volume_worker(task[1]) if task[0] == "volume" else _flood_worker(task[1:])
+
+
 def _flood_worker(task):
     path, n = task
     rep = Report(prop=ID, level="exploration", rule=RULE)
@@ -1498,9 +1585,9 @@ def run(ctx: Ctx) -> Report:
         total.merge(rep)
     lap("repetition")
     n_flood = 70000 if ctx.quick else 600000
-    for rep in pool_map(_flood_worker, [(p, n_flood) for p in FLOOD_CLASSES]):
+    for rep in pool_map(_flood_or_volume, [("flood", p, n_flood) for p in FLOOD_CLASSES] + [("volume", (1 << 31) if ctx.quick else (1 << 32) + (1 << 30), 0)]):
         total.merge(rep)
-    lap("flood")
+    lap("flood_and_volume")
     total.extra["stage_seconds"] = stage_s
     c = total.extra.get("counters", {})
     if c.get("preemptions_landed", 0) < c.get("schedules", 0) // 2:
@@ -1528,6 +1615,8 @@ def replay(case):
         return repetition(case["class"], case["n"])
     if kind == "flood":
         return flood(case["class"], case["n"])
+    if kind == "volume":
+        return volume_under_overlap(case["bytes"])[0]
     if kind == "order-self":
         a0 = _run_order_child("list:" + case["class"], flip=0)[case["class"]].get(case["label"])
         a1 = _run_order_child("list:" + case["class"], flip=1)[case["class"]].get(case["label"])
